@@ -200,6 +200,7 @@ def run(ctx):
     for s in pmap(one, cases, workers=8)[:8]:
         ctx.sample(s)
     several_faulty_parts(ctx, home, quick)
+    race_detector_pass(ctx, home, quick)
 
 
 def several_faulty_parts(ctx, home, quick):
@@ -269,6 +270,54 @@ def several_faulty_parts(ctx, home, quick):
         shutil.rmtree(base, ignore_errors=True)
 
     pmap(one, layouts, workers=4)
+
+
+def race_detector_pass(ctx, home, quick):
+    """one-shot `validate` and `generate` of packages with several previous versions and imports (valid, and with several broken parts) under the Go race
+    detector: two goroutines that touch the same diagnostics / model state without synchronisation are a source of run-to-run differences that N
+    repetitions may not happen to show. Every report with a yardl frame is a violation."""
+    import re
+    yr = common.build_yardl(race=True)
+    good = "Rec: !record\n  fields:\n    a: int\n    b: string*\nP: !protocol\n  sequence:\n    r: Rec\n    s: !stream\n      items: Rec\n"
+    cases = []
+    for broken in (False, True):
+        files = {"new/_package.yml": "namespace: Rd\nimports:\n  - ../lib0\n  - ../lib1\nversions:\n" + "".join("  v%d: ../v%d\n" % (j, j) for j in range(4)) +
+                 "json:\n  outputDir: ../out/json\npython:\n  outputDir: ../out/python\ncpp:\n  sourcesOutputDir: ../out/cpp\n  generateCMakeLists: false\nmatlab:\n  outputDir: ../out/matlab\n",
+                 "new/m.yml": good.replace("a: int", "a: long") + "U: !record\n  fields:\n    x: L0.LibRec0\n    y: L1.LibRec1\n"}
+        for j in range(4):
+            files["v%d/_package.yml" % j] = "namespace: Rd\nimports:\n  - ../lib0\n  - ../lib1\n"
+            files["v%d/m.yml" % j] = (good if not broken else good + "Broken%d: !record\n  fields:\n    q: Missing%d\n" % (j, j)) + "U: !record\n  fields:\n    x: L0.LibRec0\n    y: L1.LibRec1\n"
+        for j in range(2):
+            files["lib%d/_package.yml" % j] = "namespace: L%d\n" % j
+            files["lib%d/m.yml" % j] = "LibRec%d: !record\n  fields:\n    z: int\n" % j
+        cases.append(("broken-versions" if broken else "valid", files))
+    for name, files in cases:
+        base = os.path.join(ctx.workdir, "cases", "race_" + name)
+        shutil.rmtree(base, ignore_errors=True)
+        common.write_tree(base, files)
+        reports = set()
+        for n in range(4 if quick else 20):
+            for cmd in ("validate", "generate"):
+                logp = os.path.join(base, "race_%s_%d" % (cmd, n))
+                p = common.run([yr, cmd], cwd=os.path.join(base, "new"), env=common.yardl_env(home, None, {"GORACE": "halt_on_error=0 log_path=%s" % logp}), cpu_s=120)
+                ctx.ev()
+                ctx.count("race-detector.runs")
+                if p.timed_out:
+                    raise Inconclusive("watchdog")
+                for f in os.listdir(base):
+                    if f.startswith("race_%s_%d." % (cmd, n)):
+                        txt = open(os.path.join(base, f), errors="replace").read()
+                        for block in txt.split("WARNING: DATA RACE")[1:]:
+                            frames = [x for x in re.findall(r"^\s+(github\.com/microsoft/yardl/tooling/[^\s(]+)", block, re.M) if "verifhook" not in x]
+                            if frames:
+                                reports.add(frames[0].split("tooling/")[1] + " | " + frames[-1].split("tooling/")[1])
+            shutil.rmtree(os.path.join(base, "out"), ignore_errors=True)
+        ctx.case(("race-detector", name))
+        ctx.count("race-detector.reports", len(reports))
+        for rr in sorted(reports):
+            ctx.violation("data-race:%s" % rr.split(" | ")[0], "one-shot run of a package with four previous versions and two imports (%s): Go race detector report with yardl frames: %s" % (name, rr), {"case_dir": base})
+        if not reports:
+            shutil.rmtree(base, ignore_errors=True)
 
 
 def diff_detail(a, b):
